@@ -229,6 +229,48 @@ class Evaluator:
         self.unknown = unknown_log if unknown_log is not None else []
         self.macros_as_strings = ("format",)
 
+    # types of the objects the actions get from the parser's parameters: receiver name -> type whose methods apply
+    RECV_TYPES = {"context": "Context", "out": "Output", "context.mapper": "SourceMapper", "vm": "VM"}
+
+    def set_helpers(self, helpers):
+        """functions/methods of the plain Rust sources (syntax trees): calls to them are evaluated by inlining.
+        A name defined twice for the same receiver type is ambiguous and left opaque."""
+        tbl, dup = {}, set()
+        for h in helpers:
+            key = (h.get("self_ty"), h["name"])
+            if key in tbl:
+                dup.add(key)
+            tbl[key] = h
+        for k in dup:
+            tbl.pop(k, None)
+        self.helpers = tbl
+        self.inline_depth = 0
+
+    def inline(self, h, recv, args, p):
+        """evaluate the body of helper h on this path: own scope, `return` ends the helper only"""
+        if getattr(self, "inline_depth", 0) >= 5:
+            return None
+        self.inline_depth += 1
+        try:
+            saved = p.env
+            env = {k: v for k, v in saved.items() if k.startswith("$")}
+            names = list(h["params"])
+            if names and names[0] == "self":
+                env["self"] = recv
+                names = names[1:]
+            for n, v in zip(names, args):
+                env[n] = v
+            p.env = env
+            outs = self.block(h["body"], [p])
+            for q in outs:
+                q.returned = False
+                keep = {k: v for k, v in q.env.items() if k.startswith("$")}
+                q.env = dict(saved)
+                q.env.update(keep)
+            return outs
+        finally:
+            self.inline_depth -= 1
+
     def run(self, ast, args):
         p = Path()
         p.env = dict(args)
@@ -523,6 +565,8 @@ class Evaluator:
         if e["k"] == "field":
             return self.place_name(e["e"], p) + "." + e["m"]
         if e["k"] == "path":
+            if len(e["segs"]) == 1 and isinstance(p.env.get(e["segs"][0]), Obj) and not p.env[e["segs"][0]].name.startswith("path:"):
+                return p.env[e["segs"][0]].name  # e.g. `self` inside an inlined method of the context
             return "::".join(e["segs"])
         if e["k"] == "un" and e["op"] == "*":
             return "*" + self.place_name(e["e"], p)
@@ -771,6 +815,12 @@ class Evaluator:
         elif fname in ("String::from", "String::new"):
             p.ret = args[0] if args else Str.lit("")
         else:
+            segs = fname.split("::")
+            h = getattr(self, "helpers", {}).get((segs[-2] if len(segs) > 1 else None, segs[-1]))
+            if h is not None and len(h["params"]) == len(args) and (not h["params"] or h["params"][0] != "self"):
+                outs = self.inline(h, None, args, p)
+                if outs is not None:
+                    return outs
             p.effects.append(Effect("call", line, fn=fname, args=args, arg_descs=[self.describe(a) for a in e["args"]]))
             p.ret = Top("call:" + fname)
         return [p]
@@ -870,6 +920,11 @@ class Evaluator:
             p.effects.append(Effect("local_push", line, target=recv.name))
             p.ret = UNIT
             return [p]
+        h = getattr(self, "helpers", {}).get((self.RECV_TYPES.get(rname), m)) if rname in self.RECV_TYPES else None
+        if h is not None and len(h["params"]) == len(args) + 1 and h["params"][0] == "self":
+            outs = self.inline(h, recv, args, p)
+            if outs is not None:
+                return outs
         p.effects.append(Effect("mcall", line, recv=self.describe(recv_node), m=m, args=args, arg_descs=descs))
         p.ret = Top("mcall:" + m)
         return [p]
